@@ -440,6 +440,77 @@ pub fn run(tier: Tier) -> i32 {
             J::obj().set("kind", J::s("server")).set("state", J::i(si as u64)).set("state_name", J::s(fx.server_states[si].name)).set("datagram_index", J::i(di as u64)).set("datagram", J::s(ds[di].0.clone())),
         );
     }
+    // stale / replayed genuine datagrams that the receiving state machine must ignore
+    {
+        let g = |kind: &str| fx.genuine.iter().find(|(k, _, _)| *k == kind).map(|(_, _, b)| b.clone());
+        let mut cases: Vec<(String, usize, Vec<u8>)> = vec![];
+        for kind in ["challenge", "denied s2c", "keep-alive s2c", "payload s2c"] {
+            if let Some(b) = g(kind) {
+                if kind == "challenge" || kind == "denied s2c" {
+                    cases.push((format!("stale genuine {} to a connected client", kind), 2, b.clone()));
+                } else {
+                    cases.push((format!("replay of the already processed {} to a connected client", kind), 2, b.clone()));
+                }
+                cases.push((format!("genuine {} to a disconnected client", kind), 3, b));
+            }
+        }
+        if let Some(b) = g("disconnect s2c") {
+            cases.push(("genuine disconnect to a client that is still requesting".into(), 0, b.clone()));
+            cases.push(("genuine disconnect to a client that is still responding".into(), 1, b));
+        }
+        let mut n = 0u64;
+        for (desc, si, b) in &cases {
+            n += 1;
+            // these datagrams are genuinely sealed, so the anti-replay window may record them; what must not
+            // change is what the application can observe: state, reason, receive timer, no payload
+            let v = {
+                let mut c = fx.client_states[*si].client.clone();
+                let before = c.verif_snapshot();
+                match nc::cli_process(&mut c, b) {
+                    Err(v) => Some(v),
+                    Ok(p) => {
+                        let after = c.verif_snapshot();
+                        if p.is_some() && *si != 2 {
+                            Some(Violation::new("C07/stale-datagram-surfaces-payload", format!("client state {:?}", before.state)))
+                        } else if after.state != before.state || after.last_packet_received_time != before.last_packet_received_time {
+                            Some(Violation::new(
+                                "C07/stale-datagram-changes-client-state",
+                                format!("client went from {:?} to {:?} (receive timer {:?} -> {:?})", before.state, after.state, before.last_packet_received_time, after.last_packet_received_time),
+                            ))
+                        } else {
+                            None
+                        }
+                    }
+                }
+            };
+            if let Some(v) = v {
+                rep.violation(
+                    "client-stale-genuine",
+                    crate::explore::Violation::new(format!("{}/stale-genuine", v.signature), format!("{}: {}", desc, v.message)),
+                    J::obj().set("kind", J::s("stale")).set("case", J::s(desc.clone())),
+                );
+            }
+        }
+        let mut scases: Vec<(String, usize, Vec<u8>)> = vec![];
+        for kind in ["request", "response", "keep-alive c2s", "payload c2s"] {
+            if let Some(b) = g(kind) {
+                scases.push((format!("replay of the client's {} from its connected address", kind), 2, b));
+            }
+        }
+        for (desc, si, b) in &scases {
+            n += 1;
+            let (_, v) = inject_server(&fx, &fx.server_states[*si], b);
+            // a replayed valid request from a connected address is exempt by the validity rule but must still get no answer
+            if let Some(v) = v {
+                rep.violation(
+                    "server-stale-genuine",
+                    crate::explore::Violation::new(format!("{}/stale-genuine", v.signature), format!("{}: {}", desc, v.message)),
+                    J::obj().set("kind", J::s("stale")).set("case", J::s(desc.clone())),
+                );
+            }
+        }
+        rep.add_sweep("stale-and-replayed-genuine-datagrams", n, n, 4, cases.iter().map(|c| c.0.clone()).take(3).collect());
+    }
     // client
     let ncs = fx.client_states.len();
     let r = explore::sweep(ds.len() * ncs, |i| {
